@@ -164,6 +164,19 @@ def fixed_regressions(with_assert=False):
         out.append(prog(tag, [stmt(pr({"e": "call", "fi": 2, "args": [lit(SI, 1)]})),
                               stmt(pr({"e": "call", "fi": 2, "args": [lit(SI, 9)]})),
                               stmt(pr({"e": "str", "s": "not reached"}))], funs=[boom, guard], exns=["Ex0"]))
+    # R6: an exception thrown with a value selected from a union, ExP0(u.t2): type inference crashed on it
+    thr = {"name": "thu", "oname": "thu", "ps": ["p"], "pts": [SI], "rt": BI, "pure": False,
+           "body": {"e": "let", "x": "u", "t": ["un", 0], "v": {"e": "mkun", "t": ["un", 0], "tag": 2, "v": var("p")},
+                    "body": {"e": "seq", "t": BI, "es": [
+                        iff(prim("si.gt", var("p"), lit(SI, 3)), {"e": "throw", "exn": "ExP0", "args": [{"e": "uget", "u": var("u"), "tag": 2, "ut": 0}]},
+                            {"e": "unit"}, UNIT),
+                        lit(BI, -22)]}}}
+    cat = {"name": "cau", "oname": "cau", "ps": ["y"], "pts": [SI], "rt": BI, "pure": False,
+           "body": {"e": "try", "t": BI, "body": {"e": "call", "fi": 1, "args": [var("y")]},
+                    "hs": [{"exn": "ExP0", "ps": ["q"], "body": prim("bi.add", prim("si.tobi", var("q")), lit(BI, 100))}], "fin": {"e": "none"}}}
+    out.append(prog("R6_exception_value_from_union_selection", [stmt(pr({"e": "call", "fi": 2, "args": [lit(SI, 1)]})),
+                                                                 stmt(pr({"e": "call", "fi": 2, "args": [lit(SI, 4)]}))],
+                    funs=[thr, cat], uns=[[BI, SI]], exns=["ExP0"], exnp=[{"exn": "ExP0", "t": SI}]))
     f4 = {"name": "f4", "ps": ["p5", "p7"], "pts": [SI, SI], "rt": SI, "pure": True,
           "body": {"e": "let", "x": "v8", "t": SI, "v": var("p5"), "body": {"e": "seq", "t": SI, "es": [
               {"e": "asg", "x": "v8", "v": iff(var("g3"), lit(SI, 13), lit(SI, 12), SI)},
